@@ -71,6 +71,10 @@ claim("C20", "must-hold lockset walk over SSA paths + atomic-pointer discipline 
       "Structural necessary condition only (the discipline, not the schedules): every shared access to htpasswdMap.users holds rwm; published credential maps are immutable and replaced by locally built ones; Validate compares against the entry it read; UserMap.m only via sync/atomic with frozen stored maps and index-only readers; swaps only after error-free parsing. Level 'other'.",
       TRUST + " Not decided: interleavings, fsnotify semantics, file-system atomicity.", "DESIGN.md §5 C20")
 
+claim("C18", "closed-world enumeration (cookie allocations, SetCookie arguments, field stores) + value provenance + constructor wiring on SSA paths",
+      "Structural necessary condition for all responses/option combinations: every cookie sent derives from the single constructor, which wires each attribute from its option and selects the domain by first suffix match in the validated longest-first order; nobody rewrites attributes or reorders the domain list afterwards; copies keep all attributes; deletions reuse name and options. Level 'other'.",
+      TRUST + " Not decided: the 4096-byte bound, suffix-match value semantics incl. host-with-port, http.Cookie serialisation.", "DESIGN.md §5 C18")
+
 for i in range(2, 21):
     pid = "C%02d" % i
     if pid not in T:
